@@ -41,13 +41,15 @@ Definition on_call (g : call -> call) (it : item) : item := (g (fst (fst it)), s
 Definition on_out (r : res Z) (it : item) : item := (fst (fst it), r, snd it).
 
 Definition set_toks (g : list tokobs -> list tokobs) (o : obs) : obs :=
-  Ob (o_now o) (g (o_toks o)) (o_count o) (o_enum o) (o_past o) (o_idx o) (o_allowed o) (o_flcount o) (o_logs o).
+  Ob (o_now o) (g (o_toks o)) (o_count o) (o_enum o) (o_past o) (o_idx o) (o_allowed o) (o_flcount o) (o_logs o) (o_exec o) (o_mgr o).
 Definition set_logs (g : list (list logent) -> list (list logent)) (o : obs) : obs :=
-  Ob (o_now o) (o_toks o) (o_count o) (o_enum o) (o_past o) (o_idx o) (o_allowed o) (o_flcount o) (g (o_logs o)).
+  Ob (o_now o) (o_toks o) (o_count o) (o_enum o) (o_past o) (o_idx o) (o_allowed o) (o_flcount o) (g (o_logs o)) (o_exec o) (o_mgr o).
 Definition set_enum (cnt : N) (en : list (option addr)) (o : obs) : obs :=
-  Ob (o_now o) (o_toks o) cnt en (o_past o) (o_idx o) (o_allowed o) (o_flcount o) (o_logs o).
+  Ob (o_now o) (o_toks o) cnt en (o_past o) (o_idx o) (o_allowed o) (o_flcount o) (o_logs o) (o_exec o) (o_mgr o).
+Definition set_exec (ex : list bool) (o : obs) : obs :=
+  Ob (o_now o) (o_toks o) (o_count o) (o_enum o) (o_past o) (o_idx o) (o_allowed o) (o_flcount o) (o_logs o) ex (o_mgr o).
 Definition set_allowed_obs (al : list bool) (o : obs) : obs :=
-  Ob (o_now o) (o_toks o) (o_count o) (o_enum o) (o_past o) (o_idx o) al (o_flcount o) (o_logs o).
+  Ob (o_now o) (o_toks o) (o_count o) (o_enum o) (o_past o) (o_idx o) al (o_flcount o) (o_logs o) (o_exec o) (o_mgr o).
 
 (* holder k of token 0 gets d more *)
 Definition bump_bal (k : nat) (d : Z) : obs -> obs :=
